@@ -633,6 +633,93 @@ func RunStress(b *abs.Built, dir string, seed int64, dur time.Duration, rec *rec
 			}
 		}(r)
 	}
+	// the less travelled calls: each takes the client's locks on its way
+	wg.Add(1)
+	go func() {
+		defer wg.Done()
+		for n := 0; ; n++ {
+			select {
+			case <-stop:
+				return
+			case <-time.After(3 * time.Millisecond):
+			}
+			done := make(chan struct{})
+			go func() {
+				defer close(done)
+				switch n % 4 {
+				case 0:
+					_ = cl.Schema()
+				case 1:
+					_ = cl.CurrentEndpoint()
+				case 2:
+					_ = cl.Connected()
+				case 3:
+					_ = cl.SetOption(client.WithInactivityCheck(0, time.Second, nil))
+				}
+			}()
+			select {
+			case <-done:
+			case <-time.After(callDeadline):
+				atomic.AddInt64(&stuckCalls, 1)
+			}
+			atomic.AddInt64(&calls, 1)
+		}
+	}()
+	// a second client that does nothing but connect, disconnect and monitor every table of its model (MonitorAll
+	// reads the model the connection set-up writes); it holds no other monitor, so nothing is monitored twice
+	l2 := logr.Discard()
+	if cl2, err := client.NewOVSDBClient(in.Ctx.ClientDB, client.WithEndpoint("unix:"+in.Sock), client.WithLogger(&l2)); err == nil {
+		defer func() {
+			done := make(chan struct{})
+			go func() { cl2.Close(); close(done) }()
+			select {
+			case <-done:
+			case <-time.After(3 * time.Second):
+			}
+		}()
+		timed := func(f func(ctx context.Context)) {
+			ctx, cancel := context.WithTimeout(context.Background(), 300*time.Millisecond)
+			defer cancel()
+			done := make(chan struct{})
+			go func() { defer close(done); f(ctx) }()
+			select {
+			case <-done:
+			case <-time.After(callDeadline):
+				atomic.AddInt64(&stuckCalls, 1)
+			}
+			atomic.AddInt64(&calls, 1)
+		}
+		wg.Add(2)
+		go func() {
+			defer wg.Done()
+			for {
+				select {
+				case <-stop:
+					return
+				case <-time.After(2 * time.Millisecond):
+				}
+				timed(func(ctx context.Context) { _ = cl2.Connect(ctx) })
+				time.Sleep(time.Millisecond)
+				timed(func(ctx context.Context) { cl2.Disconnect() })
+			}
+		}()
+		go func() {
+			defer wg.Done()
+			for {
+				select {
+				case <-stop:
+					return
+				case <-time.After(time.Millisecond):
+				}
+				timed(func(ctx context.Context) {
+					if ck, err := cl2.MonitorAll(ctx); err == nil {
+						atomic.AddInt64(&monitorsAdded, 1)
+						_ = cl2.MonitorCancel(ctx, ck)
+					}
+				})
+			}
+		}()
+	}
 	// monitor set-up while all that goes on
 	wg.Add(1)
 	go func() {
